@@ -71,7 +71,18 @@ impl<'a> SegRunner<'a> {
         // C14 oracle on construction
         r.out.eval("C14");
         let exp_scale = ref_scale(lo, hi);
-        let info = r.real.as_ref().map(|c| { let l = c.0.verif_layout(); (l, c.0.verif_index(lo), c.0.verif_index(hi)) });
+        if r.dead {
+            r.fail(&["C14", "C10"], &format!("construction over [{}, {}] panicked", lo, hi), if exp_scale.is_some() { "a tree" } else { "failure" }, "panic");
+            return r;
+        }
+        let info = match catch_unwind(std::panic::AssertUnwindSafe(|| r.real.as_ref().map(|c| { let l = c.0.verif_layout(); (l, c.0.verif_index(lo), c.0.verif_index(hi)) }))) {
+            Ok(i) => i,
+            Err(_) => {
+                r.dead = true; r.real = None;
+                r.fail(&["C14", "C10"], &format!("coordinate-to-bucket mapping of an end point of [{}, {}] panicked", lo, hi), "bucket 0 / a bucket below 32", "panic");
+                return r;
+            }
+        };
         match (info, exp_scale) {
             (None, None) => {}
             (Some(((mn, mx, sc, cnt), ilo, ihi)), Some(s)) => {
@@ -232,8 +243,8 @@ pub fn seg_layouts(out: &mut Out, rng: &mut Rng, thorough: bool) {
     for k in [45u32, 50, 56, 60, 62] { for d in [-1i64, 0, 1] { let len = (1i64 << k) + d; doms.push((-(1i64 << (k - 1)), -(1i64 << (k - 1)) + len - 1)); doms.push((0, len - 1)); } }
     for (lo, hi) in doms {
         let mut r = SegRunner::new(out, "seg-layout", lo, hi);
-        if r.real.is_some() {
-            let sc = ref_scale(lo, hi).unwrap();
+        // (a tree built for a domain the reference refuses was reported by the construction oracle)
+        if let (true, Some(sc)) = (r.real.is_some(), ref_scale(lo, hi)) {
             let w = 1i128 << sc;
             let mut xs: Vec<i64> = vec![lo, hi, lo + (hi - lo) / 2];
             for j in [1i128, 2, 15, 16, 31] { for d in [-1i128, 0] { let x = lo as i128 + j * w + d; if x >= lo as i128 && x <= hi as i128 { xs.push(x as i64); } } }
